@@ -59,6 +59,19 @@ func (w *World) Reload(l *ipfslog.IPFSLog, loader string, ident int, lo *LoadOpt
 	case "json":
 		return w.LoadJSON(l.ToJSONLog(), ident, lo)
 	case "entries":
+		// the caller's list of "latest entries" is not always minimal: every other time it also names an entry that
+		// lies in the past of a head (a stale announcement next to a current one); without a length limit that
+		// changes nothing
+		if vs := l.Values().Slice(); lo.Length == nil && len(vs) >= 3 && atomic.AddInt64(&entriesLoads, 1)%2 == 0 {
+			stale := vs[len(vs)/2]
+			isHead := false
+			for _, hd := range heads {
+				isHead = isHead || hd.GetHash().Equals(stale.GetHash())
+			}
+			if !isHead {
+				return w.LoadEntries(append(append([]iface.IPFSLogEntry(nil), heads...), stale), ident, lo)
+			}
+		}
 		return w.LoadEntries(heads, ident, lo)
 	case "hash":
 		if len(heads) != 1 {
@@ -79,6 +92,8 @@ func (w *World) loaderOpts() *ipfslog.LogOptions {
 	}
 	return w.sharedOpts
 }
+
+var entriesLoads int64
 
 // manifestLoads counts manifest loads process-wide (worlds are copied by value by some monitors).
 var manifestLoads int64
